@@ -223,7 +223,7 @@ class NestedAsyncEvent(NestedEvent):
     This Event requires a (subclass of) `HierarchicalAsyncMachine`.
     """
 
-    async def trigger_nested(self, event_data):
+    async def trigger_nested(self, event_data, branch=None):
         """Serially execute all transitions that match the current state,
         halting as soon as one successfully completes. NOTE: This should only
         be called by HierarchicalMachine instances.
@@ -236,6 +236,9 @@ class NestedAsyncEvent(NestedEvent):
         model = event_data.model
         state_tree = machine.build_state_tree(getattr(model, machine.model_attribute), machine.state_cls.separator)
         state_tree = reduce(dict.get, machine.get_global_name(join=False), state_tree)
+        if branch is not None:
+            # offer the event to the states of this branch only; sibling regions get their own turn
+            state_tree = {branch: state_tree[branch]} if branch in state_tree else {}
         ordered_states = resolve_order(state_tree)
         done = set()
         result = None
@@ -578,7 +581,7 @@ class HierarchicalAsyncMachine(HierarchicalMachine, AsyncMachine):
                     if tmp is not None:
                         res[key] = tmp
             if not res.get(key, None) and _trigger in self.events:
-                tmp = await self.events[_trigger].trigger_nested(event_data)
+                tmp = await self.events[_trigger].trigger_nested(event_data, key)
                 if tmp is not None:
                     res[key] = tmp
         return None if not res or all(v is None for v in res.values()) else any(res.values())
